@@ -202,9 +202,31 @@ class _Census(ast.NodeVisitor):
         return {"methods": methods, "attrs": attrs}
 
 
-def census(tree: ast.Module) -> dict:
+def import_table(tree: ast.Module, modname: str = "", is_package: bool = False) -> dict:
+    """local name -> fully qualified target, for the module-level import statements"""
+    out = {}
+    for stmt in tree.body:
+        if isinstance(stmt, ast.Import):
+            for a in stmt.names:
+                if a.asname:
+                    out[a.asname] = a.name
+                else:
+                    out[a.name.split(".")[0]] = a.name.split(".")[0]
+        elif isinstance(stmt, ast.ImportFrom):
+            base = stmt.module or ""
+            if stmt.level:
+                pkg = (modname if is_package else modname.rsplit(".", 1)[0]).split(".")
+                pkg = pkg[: len(pkg) - (stmt.level - 1)]
+                base = ".".join(pkg + ([stmt.module] if stmt.module else []))
+            for a in stmt.names:
+                out[a.asname or a.name] = f"{base}.{a.name}"
+    return out
+
+
+def census(tree: ast.Module, modname: str = "", is_package: bool = False) -> dict:
     c = _Census(tree)
     return {
+        "imports": import_table(tree, modname, is_package),
         "names": {k: sorted(v) for k, v in c.mod_names.items()},
         "kinds": c.mod_kinds,
         "classes": {cn: {"methods": {k: sorted(v) for k, v in d["methods"].items()}, "attrs": {k: sorted(v) for k, v in d["attrs"].items()}} for cn, d in c.classes.items()},
@@ -1143,6 +1165,102 @@ class _MatchToIf(ast.NodeTransformer):
         return out
 
 
+def _chain(d: str, ctx=None) -> ast.expr:
+    parts = d.split(".")
+    e = ast.Name(id=parts[0], ctx=ast.Load())
+    for p in parts[1:]:
+        e = ast.Attribute(value=e, attr=p, ctx=ast.Load())
+    return e
+
+
+class _ImportStyle(ast.NodeTransformer):
+    """Re-spells references to imported names in the import vocabulary of the reference tree (`from asyncio import timeout`
+    + `timeout(...)` -> `asyncio.timeout(...)` when the reference module does `import asyncio`, and the like)."""
+
+    def __init__(self, cur: dict, ref: dict, shadowed: set):
+        self.cur, self.ref, self.shadowed = cur, ref, shadowed
+        self.differs = {a for a, t in cur.items() if ref.get(a) != t and a not in shadowed}
+        # reference spellings, longest target first
+        self.targets = sorted(((t, a) for a, t in ref.items()), key=lambda x: -len(x[0]))
+        self.used = set()
+        self.changed = []
+
+    def _respell(self, q: str) -> Optional[str]:
+        for t, a in self.targets:
+            if q == t or q.startswith(t + "."):
+                self.used.add(a)
+                return a + q[len(t):]
+        return None
+
+    def visit_Attribute(self, node):
+        d = _dotted(node)
+        if d is not None:
+            root = d.split(".")[0]
+            if root in self.differs and isinstance(node.ctx, ast.Load):
+                q = self.cur[root] + d[len(root):]
+                new = self._respell(q)
+                if new is not None and new != d:
+                    self.changed.append((d, new))
+                    e = _chain(new)
+                    for y in ast.walk(e):
+                        ast.copy_location(y, node)
+                    return e
+            return node
+        return self.generic_visit(node)
+
+    def visit_Name(self, node):
+        if node.id in self.differs and isinstance(node.ctx, ast.Load):
+            new = self._respell(self.cur[node.id])
+            if new is not None and new != node.id:
+                self.changed.append((node.id, new))
+                e = _chain(new)
+                for y in ast.walk(e):
+                    ast.copy_location(y, node)
+                return e
+        return node
+
+    def visit_Import(self, node):
+        return node
+
+    def visit_ImportFrom(self, node):
+        return node
+
+
+def _respell_imports(tree: ast.Module, modname: str, ref_imports: dict, notes: list, is_pkg: bool = False):
+    cur = import_table(tree, modname, is_pkg)
+    if cur == ref_imports:
+        return tree
+    shadowed = set()
+    for n in ast.walk(tree):
+        if isinstance(n, ast.Name) and isinstance(n.ctx, (ast.Store, ast.Del)):
+            shadowed.add(n.id)
+        elif isinstance(n, ast.arg):
+            shadowed.add(n.arg)
+        elif isinstance(n, (ast.FunctionDef, ast.AsyncFunctionDef, ast.ClassDef)):
+            shadowed.add(n.name)
+    t = _ImportStyle(cur, ref_imports, shadowed)
+    tree = t.visit(tree)
+    if t.changed:
+        # make the reference spellings resolvable: add the reference's import statements for the aliases now in use
+        new_imports = []
+        for a in sorted(t.used):
+            if cur.get(a) == ref_imports[a]:
+                continue
+            tgt = ref_imports[a]
+            if "." in tgt and a == tgt.rsplit(".", 1)[1] and not tgt.startswith(a + "."):
+                new_imports.append(ast.ImportFrom(module=tgt.rsplit(".", 1)[0], names=[ast.alias(name=a)], level=0))
+            elif a == tgt:
+                new_imports.append(ast.Import(names=[ast.alias(name=tgt)]))
+            else:
+                new_imports.append(ast.Import(names=[ast.alias(name=tgt, asname=a)]))
+        for ni in new_imports:
+            ni.lineno, ni.col_offset, ni.end_lineno, ni.end_col_offset = 1, 0, 1, 0
+        pos = 1 if tree.body and isinstance(tree.body[0], ast.Expr) and isinstance(tree.body[0].value, ast.Constant) else 0
+        tree.body[pos:pos] = new_imports
+        notes.append("import style: " + ", ".join(sorted({f"{a} -> {b}" for a, b in t.changed}))[:300])
+    return tree
+
+
 class _SuppressToTry(ast.NodeTransformer):
     """`with contextlib.suppress(E1, E2): BODY`  ->  `try: BODY / except (E1, E2): pass` (the documented meaning)."""
 
@@ -1309,11 +1427,13 @@ class _AliasFold(ast.NodeTransformer):
 
 
 # ---------------------------------------------------------------------------------------------- driver
-def canonicalise(tree: ast.Module, modname: str):
+def canonicalise(tree: ast.Module, modname: str, is_package: bool = False):
     """Returns (tree, notes). notes: list of strings describing what was rewritten."""
     notes = []
     ref = reference().get(modname)
     if ref is not None:
+        if "imports" in ref:
+            tree = _respell_imports(tree, modname, ref["imports"], notes, is_package)
         cur = census(tree)
         ren = detect_renames(cur, ref)
         if ren["module"] or any(v["methods"] or v["attrs"] for v in ren["classes"].values()):
